@@ -409,6 +409,38 @@ fn classify_cache_state(root: &Path, id: &str, point: &str, default: &str) -> St
     default.to_string()
 }
 
+/// Artifact ids referenced by frames of the truth log (any key ending in `artifact_id`) that have no blob
+/// under <workspace>/.rip/artifacts/blobs: the artifact must be durable before the frame that names it.
+fn missing_artifacts(root: &Path) -> Vec<String> {
+    fn collect(v: &serde_json::Value, out: &mut Vec<String>) {
+        match v {
+            serde_json::Value::Object(m) => {
+                for (k, x) in m {
+                    if k.ends_with("artifact_id") {
+                        if let Some(id) = x.as_str() {
+                            out.push(id.to_string());
+                        }
+                    }
+                    collect(x, out);
+                }
+            }
+            serde_json::Value::Array(a) => a.iter().for_each(|x| collect(x, out)),
+            _ => {}
+        }
+    }
+    let text = std::fs::read_to_string(truth_path(root)).unwrap_or_default();
+    let mut ids = vec![];
+    for line in text.lines() {
+        if let Ok(v) = serde_json::from_str::<serde_json::Value>(line) {
+            collect(&v, &mut ids);
+        }
+    }
+    let blobs = ws_dir(root).join(".rip").join("artifacts").join("blobs");
+    ids.sort();
+    ids.dedup();
+    ids.into_iter().filter(|id| !blobs.join(id).is_file()).collect()
+}
+
 fn trunc(s: &str) -> String {
     s.chars().take(160).collect()
 }
@@ -632,6 +664,11 @@ fn analyse(
         }
         default.to_string()
     };
+    // ---- artifact before frame: every artifact a frame of the recovered log names is on disk
+    let miss = missing_artifacts(root);
+    if !miss.is_empty() {
+        violations.push((format!("after a crash at {} (op {op_index}) the log holds frame(s) naming {} artifact(s) that are not on disk (first {})", s.name, miss.len(), miss[0]), "frame_references_missing_artifact".into()));
+    }
     // ---- reads on the recovered store before any further write
     if let Some(d) = reads_differ(root, &threads0, scratch, "r0") {
         let stream: Vec<String> = d.strip_prefix("thread#").and_then(|r| r.split(' ').next()).and_then(|n| n.parse::<usize>().ok()).and_then(|i| threads0.get(i).cloned()).into_iter().collect();
@@ -887,7 +924,7 @@ fn main() {
         let cases = run_workload(ops, scratch.path(), wl_json.clone(), *with_model && !a.oracle_only(), &mut res);
         for c in cases {
             res.evaluations += 1;
-            res.oracle_checks += 6;
+            res.oracle_checks += 7;
             res.bump(&format!("point={}", c.json["crash_point"].as_str().unwrap_or("")));
             distinct.add(&format!("{wi}/{}", c.json["point_ordinal"]));
             let mut case_id: i64 = -1;
